@@ -74,6 +74,20 @@ Theorem c11_new_limits_partial : forall ms b, new ms = Some b ->
 Proof. exact new_limits. Qed.
 Print Assumptions c11_new_limits_partial.
 
+(** ... and New refuses nothing else: header-expressible members whose map has at most 180
+    entries and whose header (size computed from the grammar, Spec.header_len) needs at most
+    8192 bytes are accepted; the header has exactly that size. *)
+Theorem c11_new_accepts : forall ms,
+  let b := fold_left bag_set ms [] in
+  forallb member_accepted ms = true -> blen b <= LIMIT_MEMBERS -> header_len b <= LIMIT_TOTAL_BYTES ->
+  new (map Some ms) = Some b /\ blen (baggage_string b) = header_len b.
+Proof.
+  intros ms b Ha Hn Hl. split; [now apply new_accepts|].
+  rewrite <- lenN_blen. apply baggage_string_len.
+  rewrite (forallb_ext_eq _ _ b good_member_accepted). now apply forallb_fold.
+Qed.
+Print Assumptions c11_new_accepts.
+
 Theorem c11_new_member_limit_refuted :
   exists ms b, new ms = Some b /\ header_within_limits (baggage_string b) = false /\
                parse (baggage_string b) = None.
